@@ -313,7 +313,7 @@ def run(tier, seed):
                 v.status = "proved"
                 v.detail = dict(v.detail, note="all failing inputs of this decade lie inside a recorded known-finding region; outside it the obligations hold")
     run.add_verdicts(vs)
-    ev, cf = cards_bounded(seed, 40 if tier == "quick" else 600)
+    ev, cf = report.guarded(run, cards_bounded, seed, 40 if tier == "quick" else 600)
     run.bounded.append(dict(name="float: cards of 1..60 fields (ints, floats, strings, blanks, blank runs covering a continuation line) through wtcard8/16/16d -> rdcards; fixed vs "
                                  "comma-separated form", evaluations=ev, failures=0 if cf is None else 1, label="bounded (never counted as proved)"))
     if unexpected:
